@@ -103,6 +103,17 @@ Theorem c37_pool_restored_partial : forall (DB : Type) (exec : DB -> bytes -> DB
 Proof. intros DB exec. exact (run_pool_restored exec). Qed.
 Print Assumptions c37_pool_restored_partial.
 
+(** The compile-error return path: the code resets the flag there too (the
+    theorem above covers it: every outcome of an accepted statement); a variant
+    that registers the reset after the error check leaves the pool read-only. *)
+Theorem c37_late_reset_mutant_refuted :
+  let q := [83;69;76;69;67;84;32;120] in                       (* "SELECT x": refused at prepare time *)
+  let exec := fun (db : unit) (_ : bytes) => (db, QErr) in
+  query_only (snd (fst (run_data_query exec 4096 1000 65536 tt (mk_conn false) true q))) = false /\
+  query_only (snd (fst (run_data_query_late_reset exec 4096 1000 65536 tt (mk_conn false) true q))) = true.
+Proof. split; reflexivity. Qed.
+Print Assumptions c37_late_reset_mutant_refuted.
+
 (** Regression witness for a filter that does not reject ';'. *)
 Theorem c37_semicolon_mutant_refuted :
   let q := [83;69;76;69;67;84;32;49;59;68;82;79;80;32;84;65;66;76;69;32;116] in  (* SELECT 1;DROP TABLE t *)
